@@ -460,13 +460,16 @@ def f_env(value=None, how="declared", v=1, ovr="none"):
     return {"plan.py": script(root, v=v), "e.py": script(e)}
 
 
-def f_vol(outdir="out/deep", log="vol", workdir=".", present=1, adopt="none", logdir="out"):
+def f_vol(outdir="out/deep", log="vol", workdir=".", present=1, adopt="none", logdir="out", broken=0):
     """V: a step with a nested output directory, a volatile log and a working directory.
     logdir: where the log goes; with out/logs the two outputs live in sibling directories whose
     common parent out/ holds no output itself.
     adopt: once the step is dropped (present=0) the plan declares its former outputs static,
     as a tree (out/) or as a file (out/log.txt): the user keeps them as sources."""
     prog = [["static", "src.txt"]]
+    if broken:
+        # the plan fails before it defines anything else
+        return {"plan.py": script([*prog, ["exit", 1]]), "src.txt": "src\n"}
     if not present and adopt == "tree":
         prog.append(["static", "out/"])
     elif not present and adopt == "file":
